@@ -108,3 +108,117 @@ def cc1(rep, w, prop):
             r.check(ok, '%s changes `%s` and rewrites `%s`' % (wf.replace('yarel::', ''), a_[0], c_),
                     '`%s` remembers a look-up in `%s` (filled in %s) but %s changes `%s` without touching it: the remembered value is handed out after the table has moved on' %
                     (c_, a_[0], sorted(x.rsplit('::', 1)[-1] for x in fillers), wf, a_[0]), f.loc(f.blocks[bi]['t'].get('sp')))
+
+
+SCALARS = ('usize', 'u8', 'u16', 'u32', 'u64', 'isize', 'i8', 'i16', 'i32', 'i64', 'bool')
+COLLECTIONS = ('std::vec::Vec<', 'std::collections::HashMap<', 'std::collections::HashSet<', 'std::collections::VecDeque<', 'std::collections::BTreeMap<')
+
+
+def summary_pairs(w):
+    """(adt, collection field, container type, scalar field) -> functions that change the collection and write the scalar in one go"""
+    c = w.yarel
+    sib = {}        # (collection field, container type) -> [(adt, {scalar fields})]
+    for an, adt in c.adts.items():
+        if not an.startswith('yarel::') or len(adt.get('variants', [])) != 1:
+            continue
+        fds = adt['variants'][0]['fields']
+        scal = set()
+        for fd in fds:
+            ts = c.tstr(fd['t'])
+            if ts in SCALARS or (ts.startswith('std::cell::Cell<') and ts[len('std::cell::Cell<'):-1] in SCALARS):
+                scal.add(fd['n'])
+        for fd in fds:
+            ts = c.tstr(fd['t'])
+            if ts.startswith(COLLECTIONS) and scal:
+                sib.setdefault((fd['n'], ts), []).append((an, scal))
+    mutators = {}   # (field, cty) -> {fn path: block}
+    scalar_writes = {}   # fn path -> {field names}
+    for f in c.fns.values():
+        org = origins(f)
+        for c_, _, bi in field_writes(f, org):
+            scalar_writes.setdefault(f.path, set()).add(c_)
+        # compound assignments / checked arithmetic store through the field place as well
+        for bi in f.normal_blocks():
+            for s in f.blocks[bi]['s']:
+                d = s.get('d') or {}
+                nm = _field_of(d) if d.get('p') else None
+                if nm:
+                    scalar_writes.setdefault(f.path, set()).add(nm)
+        for bi, t in f.calls():
+            n = strip_generics(callee_name(t) or '')
+            if n.endswith(MUTATORS) and n.startswith(('std::', 'alloc::', 'core::', 'hashbrown::')) and t['args']:
+                pl = op_place(t['args'][0])
+                cty = _container_type(f, pl)
+                names = set()
+                for q in org.get(pl['l'], ()) if pl else ():
+                    nm = _named(q)
+                    if nm:
+                        names.add(nm[-1])
+                fld = _field_of(pl)
+                if fld:
+                    names.add(fld)
+                for nm in names:
+                    if (nm, cty) in sib:
+                        mutators.setdefault((nm, cty), {})[f.path] = bi
+    # a summary has no life of its own: it only ever counts (field = field +- constant) or is reset to a constant, and only in
+    # functions that also change the collection
+    counter_like = {}
+    for f in c.fns.values():
+        org = None
+        for bi in f.normal_blocks():
+            for s in f.blocks[bi]['s']:
+                d = s.get('d') or {}
+                nm = _field_of(d) if d.get('p') else None
+                if not nm:
+                    continue
+                rr = s.get('r', {})
+                good = False
+                if rr.get('rv') == 'use':
+                    from facts import op_const
+                    if op_const(rr['o']) is not None:
+                        good = True
+                    else:
+                        pl = op_place(rr['o'])
+                        if org is None:
+                            org = origins(f)
+                        roots = org.get(pl['l'], ()) if pl is not None else ()
+                        good = bool(roots) and all((q[0][0] == 'const') or (_named(q) and _named(q)[-1] == nm and '#bin' in q[1:]) for q in roots)
+                if not any(s2.get('r', {}).get('rv') == 'agg' and s2['r'].get('adt') for s2 in [s]):
+                    counter_like[nm] = counter_like.get(nm, True) and good
+    pairs = {}
+    writers_of = {}
+    for p_, names in scalar_writes.items():
+        for nm in names:
+            writers_of.setdefault(nm, set()).add(p_)
+    for (fld, cty), fns in mutators.items():
+        for (an, scal) in sib[(fld, cty)]:
+            for p_ in fns:
+                for k in scal & scalar_writes.get(p_, set()):
+                    if not counter_like.get(k, False):
+                        continue
+                    # every writer of the scalar (constructors aside) also changes the collection, itself or through a direct callee
+                    if not all(x in fns or any(s_.get('r', {}).get('rv') == 'agg' and s_['r'].get('adt') == an for b_ in c.fns[x].blocks for s_ in b_['s'])
+                               for x in writers_of.get(k, ()) if x in c.fns):
+                        continue
+                    pairs.setdefault((an, fld, cty, k), set()).add(p_)
+    return pairs, mutators, scalar_writes
+
+
+def cc2(rep, w, prop):
+    """a number or flag that summarises a collection of the same object (how many tuple keys a map holds, the size of a table, a `plain` flag)
+    is written together with the collection by the code that maintains it; then every function that changes the collection has to write it
+    too - a second way in (the literal builder next to the insert native) that leaves the summary alone makes the two disagree."""
+    r = rep.rule('CC2', 'a scalar field that some function updates together with a collection of the same object is updated by every function that changes that collection', floor=0)
+    pairs, mutators, scalar_writes = summary_pairs(w)
+    cg = w.callgraph()
+    r.note('summary relations on this tree: %s' % (sorted((a.rsplit('::', 1)[-1], f_, k) for (a, f_, _, k) in pairs) or 'none'))
+    r.ok('census of collection summaries: %d' % len(pairs))
+    for (an, fld, cty, k), witnesses in sorted(pairs.items()):
+        for g, bi in sorted(mutators[(fld, cty)].items()):
+            f = w.fns[g]
+            ok = k in scalar_writes.get(g, ()) or any(k in scalar_writes.get(x, ()) for x in cg.get(g, ()))
+            # the constructor of the object (and code that builds a fresh one) starts from a consistent state of its own
+            builds = any(s.get('r', {}).get('rv') == 'agg' and s['r'].get('adt') == an for b in f.blocks for s in b['s'])
+            r.check(ok or builds, '%s changes %s.%s and writes %s' % (g.replace('yarel::', ''), an.rsplit('::', 1)[-1], fld, k),
+                    '%s.%s summarises %s (kept in step in %s) but %s changes `%s` without writing it: the summary and the collection disagree from then on' %
+                    (an.rsplit('::', 1)[-1], k, fld, sorted(x.rsplit('::', 1)[-1] for x in witnesses), g, fld), f.loc(f.blocks[bi]['t'].get('sp')))
